@@ -22,7 +22,7 @@ class Case:
 
     def __init__(self, name, fn, params=None, width=64, shards=1, shard_depth=8,
                  install=None, registries=True, max_paths=None, timeout_ms=60000,
-                 tags=()):
+                 tags=(), repeat=1):
         self.name = name
         self.fn = fn
         self.params = params or {}
@@ -34,6 +34,20 @@ class Case:
         self.max_paths = max_paths
         self.timeout_ms = timeout_ms
         self.tags = tuple(tags)
+        self.repeat = repeat            # run the body this many times in one path (independent inputs)
+
+    def body(self, ctx):
+        """The harness body; with repeat=n it runs n times in one path, each run with its own inputs
+        (names prefixed r1., r2., ... except for the last run), so that state the code under test keeps
+        between calls is exercised by a history inside the path."""
+        if self.repeat <= 1:
+            return self.fn(ctx, **self.params)
+        labels = []
+        for i in range(1, self.repeat):
+            with ctx.namespace("r%d." % i):
+                labels.append(self.fn(ctx, **self.params))
+        labels.append(self.fn(ctx, **self.params))
+        return " | ".join(l if isinstance(l, str) else repr(l) for l in labels)
 
 
 # ---------------------------------------------------------------------------
@@ -67,6 +81,7 @@ def symbolic_mode(case):
     """Install all shims for a symbolic run of `case`."""
     import dali.frame, dali.command, dali.address  # noqa
     import dali.gear, dali.device                   # noqa
+    guard = StateGuard().scan()
     with shims.Installed(shims.dali_modules()) as inst:
         if case.registries:
             for cls, attr in registry_sites():
@@ -75,7 +90,132 @@ def symbolic_mode(case):
                     inst.set(cls, attr, shims.SymDict(cur))
         if case.install is not None:
             case.install(inst)
-        yield inst
+        guard.scan()
+        inst.guard = guard
+        StateGuard.active = guard
+        try:
+            yield inst
+        finally:
+            StateGuard.active = None
+            inst.suspend()
+            guard.restore()
+            inst.resume()
+
+
+# ---------------------------------------------------------------------------
+# state guard: every path starts from the library's import-time state
+
+_PLAIN = (int, str, bytes, bool, float, type(None), tuple, frozenset)
+_CONT = (dict, list, set, bytearray)
+
+
+class StateGuard:
+    """Snapshot of the class- and module-level state of the dali package, restored before every path and
+    before every concrete run.
+
+    The explorer re-executes the harness once per path and assumes that each execution starts from the
+    same state.  Code under test that keeps state between calls (a module-level memo, a class-level cache,
+    a counter) would otherwise carry values - possibly symbolic ones - from one path into the next, and a
+    counterexample found on such a path would not replay.  With the guard, state kept between calls can
+    only influence a path through calls made *inside* that path, which is what the history cases do.
+    Tracked: the contents of every dict/list/set/bytearray bound to a global of a dali module or to an
+    attribute of a class defined there, and every such binding whose value is plain data.  Objects are
+    compared by identity, never with == (they may hold symbolic values)."""
+
+    active = None
+
+    def __init__(self):
+        self.conts = {}       # id -> (obj, saved contents)
+        self.binds = {}       # (id(owner), name) -> (owner, name, value)
+        self.known = {}       # id(owner) -> (owner, set of names)
+        self.restored = 0
+
+    def _owners(self):
+        seen, out = set(), []
+        for m in shims.dali_modules():
+            out.append(m)
+            for v in list(vars(m).values()):
+                if isinstance(v, type) and (v.__module__ or "").startswith("dali") and id(v) not in seen:
+                    stack = [v]
+                    while stack:
+                        c = stack.pop()
+                        if id(c) in seen:
+                            continue
+                        seen.add(id(c))
+                        out.append(c)
+                        for w in list(vars(c).values()):
+                            if isinstance(w, type) and (w.__module__ or "").startswith("dali"):
+                                stack.append(w)
+        return out
+
+    @staticmethod
+    def _snap(obj):
+        if isinstance(obj, dict):
+            return list(dict.items(obj))
+        if isinstance(obj, set):
+            return list(set.__iter__(obj))
+        return list(obj)
+
+    @staticmethod
+    def _same(obj, saved):
+        if isinstance(obj, dict):
+            cur = dict.items(obj)
+            return dict.__len__(obj) == len(saved) and all(k is k2 and v is v2 for (k, v), (k2, v2) in zip(cur, saved))
+        if isinstance(obj, set):
+            return set.__len__(obj) == len(saved) and sorted(map(id, set.__iter__(obj))) == sorted(map(id, saved))
+        return len(obj) == len(saved) and all(a is b for a, b in zip(obj, saved))
+
+    def scan(self):
+        """(Re)scan; bindings and containers seen for the first time are added to the snapshot."""
+        for o in self._owners():
+            names = self.known.setdefault(id(o), (o, set()))[1]
+            for k, v in list(vars(o).items()):
+                if k.startswith("__") and k.endswith("__"):
+                    continue
+                names.add(k)
+                if isinstance(v, _CONT) and id(v) not in self.conts:
+                    self.conts[id(v)] = (v, self._snap(v))
+                if isinstance(v, _PLAIN) and (id(o), k) not in self.binds:
+                    self.binds[(id(o), k)] = (o, k, v)
+        return self
+
+    def restore(self):
+        n = 0
+        for obj, saved in self.conts.values():
+            if not self._same(obj, saved):
+                n += 1
+                if isinstance(obj, dict):
+                    dict.clear(obj)
+                    for k, v in saved:
+                        dict.__setitem__(obj, k, v)
+                    if isinstance(obj, shims.SymDict):
+                        obj._cache = None
+                elif isinstance(obj, set):
+                    set.clear(obj)
+                    set.update(obj, saved)
+                else:
+                    obj[:] = saved
+        for o, names in self.known.values():
+            for k, v in list(vars(o).items()):
+                if k.startswith("__") and k.endswith("__"):
+                    continue
+                if k not in names:
+                    n += 1
+                    try:
+                        delattr(o, k)
+                    except Exception:  # noqa
+                        pass
+                    continue
+                b = self.binds.get((id(o), k))
+                if b is not None and v is not b[2] and (isinstance(v, _PLAIN) or core_is_sym(v)):
+                    n += 1
+                    setattr(o, k, b[2])
+        self.restored += n
+        return n
+
+
+def core_is_sym(v):
+    return isinstance(v, (core.SymInt, core.SymBool))
 
 
 # ---------------------------------------------------------------------------
@@ -125,10 +265,14 @@ def run_concrete(case, values):
     cctx = core.ConcreteCtx(values)
     saved = core.Ctx.cur
     core.Ctx.cur = None
+    if StateGuard.active is not None:
+        StateGuard.active.restore()
     try:
-        label = case.fn(cctx, **case.params)
+        label = case.body(cctx)
     finally:
         core.Ctx.cur = saved
+        if StateGuard.active is not None:
+            StateGuard.active.restore()
     return label, cctx.observed, cctx.path_violations
 
 
@@ -180,7 +324,7 @@ def _new_stats(case_name):
             "labels": {}, "violations": [], "status": "exhausted",
             "obligations": 0, "discharged": 0, "crossval": 0, "samples": [],
             "second": {"checked": 0, "agree": 0}, "notes": {}, "nontrivial": 0,
-            "wall_s": 0.0, "items": 0, "errors": []}
+            "wall_s": 0.0, "items": 0, "errors": [], "suspects": []}
 
 
 def _try_witnesses(case, witnesses, out, seen, why):
@@ -234,10 +378,12 @@ def run_item(case, root, tier, seed, opts, out, donate=None):
             clabel, cobs, cviol = run_concrete(case, pr.values)
         except core.ReplayMismatch as e:
             errors.append("crossval: %s: %s inputs=%r" % (case.name, e, pr.values))
+            out["suspects"].append(pr.values)
             return
         except Exception as e:
             errors.append("crossval: concrete run of %s raised %r inputs=%r"
                           % (case.name, e, pr.values))
+            out["suspects"].append(pr.values)
             return
         finally:
             inst.resume()
@@ -246,6 +392,7 @@ def run_item(case, root, tier, seed, opts, out, donate=None):
         if clab != lab:
             errors.append("crossval label mismatch in %s: symbolic %r concrete %r inputs=%r"
                           % (case.name, lab, clab, pr.values))
+            out["suspects"].append(pr.values)
             return
         so = [(n, _norm(v)) for n, v in pr.observed]
         co = [(n, _norm(v)) for n, v in cobs]
@@ -253,6 +400,7 @@ def run_item(case, root, tier, seed, opts, out, donate=None):
             diff = [(a, b) for a, b in zip(so, co) if a != b][:3]
             errors.append("crossval observable mismatch in %s: (symbolic, concrete)=%r inputs=%r"
                           % (case.name, diff or (so[-3:], co[-3:]), pr.values))
+            out["suspects"].append(pr.values)
 
     second_q = []
 
@@ -264,7 +412,7 @@ def run_item(case, root, tier, seed, opts, out, donate=None):
         with symbolic_mode(case) as inst:
             state["inst"] = inst
             ctx, status = core.explore(
-                lambda c: case.fn(c, **case.params), root=root, donate=donate,
+                case.body, root=root, donate=donate, before_path=inst.guard.restore,
                 max_paths=case.max_paths, deadline=opts.get("deadline"), on_path=on_path,
                 timeout_ms=case.timeout_ms,
                 smt_dump=smt_dump if second_frac > 0 else None)
@@ -471,6 +619,42 @@ def run_property(prop, modname, tier, seed, meta, jobs=None, budget_s=None):
         if per_case.get(c.name, {}).get("paths", 0) == 0:
             bad.append((c.name, 0, "vacuous: no feasible path reached the end of the harness"))
 
+    # ---- fresh-process confirmation.  A counterexample that did not reproduce inside the worker, or a
+    # path whose concrete cross-validation failed there, may have been disturbed by state the code under
+    # test keeps between calls (a module- or class-level cache filled on earlier paths, possibly with
+    # symbolic values).  The inputs are re-run on the plain code in a new interpreter; a violation seen
+    # there is genuine and is its own replay.  This can only turn "inconclusive" into "violation".
+    todo, seen_t = [], set()
+    for v in violations:
+        if not v["reproduced"]:
+            k = (v["case"], v["key"])
+            if k not in seen_t and len(todo) < 16:
+                seen_t.add(k)
+                todo.append({"case": v["case"], "values": v["values"], "key": v["key"]})
+    nsus = 0
+    for r in results:
+        for vals in r.get("suspects", [])[:3]:
+            if nsus < 16:
+                nsus += 1
+                todo.append({"case": r["case"], "values": vals, "key": None})
+    if todo:
+        confirmed = _fresh_confirm(prop, tier, todo)
+        notes["fresh-process-confirmations"] = len(todo)
+        have = set(v["key"] for v in violations if v["reproduced"])
+        for t, res in zip(todo, confirmed):
+            for cv in res:
+                if t["key"] is not None and cv["key"] == t["key"]:
+                    for v in violations:
+                        if v["case"] == t["case"] and v["key"] == t["key"]:
+                            v["reproduced"] = True
+                    have.add(cv["key"])
+                elif cv["key"] not in have:
+                    have.add(cv["key"])
+                    violations.append({"case": t["case"], "label": cv["label"], "key": cv["key"],
+                                       "detail": "%s [seen in a fresh interpreter on the inputs of a path whose "
+                                                 "in-worker concrete run disagreed]" % cv["detail"],
+                                       "values": t["values"], "reproduced": True})
+
     # ---- classify violations
     known = load_known(prop)
     new, knownhits, unrepro = [], {}, []
@@ -574,6 +758,43 @@ def run_property(prop, modname, tier, seed, meta, jobs=None, budget_s=None):
              agg["solver_s"], agg["crossval"], second["agree"], second["checked"], wall,
              exit_code))
     return exit_code
+
+
+def _fresh_confirm(prop, tier, todo):
+    """Run each {case, values} concretely in a new interpreter; returns a list (per item) of the
+    violations seen there as dicts."""
+    import subprocess
+    import tempfile
+    out = []
+    with tempfile.TemporaryDirectory(prefix="symx-confirm-") as d:
+        for i, t in enumerate(todo):
+            f = os.path.join(d, "%d.json" % i)
+            with open(f, "w") as fh:
+                json.dump({"tier": tier, "case": t["case"], "values": t["values"]}, fh)
+            try:
+                p = subprocess.run([sys.executable, "-m", "symx.cli", prop, "--confirm", f],
+                                   cwd=VERIF, capture_output=True, text=True, timeout=600)
+                line = [l for l in p.stdout.splitlines() if l.startswith("CONFIRM ")]
+                out.append(json.loads(line[-1][8:]) if line else [])
+            except Exception:  # noqa
+                out.append([])
+    return out
+
+
+def confirm(modname, path):
+    """Child side of _fresh_confirm: plain concrete run, prints the violations as JSON."""
+    rec = json.load(open(path))
+    mod = importlib.import_module(modname)
+    cs = [c for c in mod.cases(rec["tier"]) if c.name == rec["case"]]
+    res = []
+    if cs:
+        try:
+            label, obs, viol = run_concrete(cs[0], rec["values"])
+            res = [{"key": v.key, "label": v.label, "detail": v.detail} for v in viol]
+        except BaseException:  # noqa
+            res = []
+    print("CONFIRM " + json.dumps(res))
+    return 0
 
 
 def replay(path):
